@@ -296,6 +296,7 @@ func c12OptionPairs(r *explore.Run, progs []wgen.Micro, tot *c12Totals) {
 		run    func(m *ir.Module, i int) ([]byte, string)
 	}
 	var apis []api
+	var spirvRef func(m *ir.Module, i int) ([]byte, string)
 	{
 		cs := nagax.SPIRVConfigs(1)
 		var ls []string
@@ -306,6 +307,25 @@ func c12OptionPairs(r *explore.Run, progs []wgen.Micro, tot *c12Totals) {
 			b, err, pn := nagax.SPIRV(m, cs[i].Opts)
 			return b, errStr(err, pn)
 		}})
+		// for SPIR-V the reference output does not go through the function-level API at all: a fresh Backend object
+		// per option set (a process-level cache behind naga.GenerateSPIRV would pollute a reference computed through it)
+		spirvRef = func(m *ir.Module, i int) ([]byte, string) {
+			var out []byte
+			var es string
+			func() {
+				defer func() {
+					if r := recover(); r != nil {
+						es = "panic:" + errClass(fmt.Sprint(r))
+					}
+				}()
+				b, err := spirv.NewBackend(cs[i].Opts).Compile(m)
+				out = b
+				if err != nil {
+					es = "err:" + errClass(err.Error())
+				}
+			}()
+			return out, es
+		}
 	}
 	{
 		cs := nagax.HLSLConfigs(1)
@@ -362,7 +382,11 @@ func c12OptionPairs(r *explore.Run, progs []wgen.Micro, tot *c12Totals) {
 			ref := make([][]byte, n)
 			refErr := make([]string, n)
 			for i := 0; i < n; i++ {
-				ref[i], refErr[i] = a.run(irx.Clone(m0), i)
+				if a.name == "spirv" {
+					ref[i], refErr[i] = spirvRef(irx.Clone(m0), i)
+				} else {
+					ref[i], refErr[i] = a.run(irx.Clone(m0), i)
+				}
 			}
 			for i := 0; i < n; i++ {
 				for j := 0; j < n; j++ {
